@@ -362,3 +362,33 @@ def layer_fault_plan(rng, spec, p_su=0.15, p_td=0.15, p_nie=0.0):
         if h:
             plan.setdefault('layers', {})[ls['name']] = h
     return plan
+
+
+BENIGN_STDERR = ['connection was reset\n', 'a b c\n', 'warning: slow\n',
+                 '1 2\n', '1 2 3 4\n', 'x y z w\n' * 20, '\n',
+                 'Traceback (most recent call last):\n  File "x", line 1\n'
+                 'ValueError: logged only\n', 'caf\u00e9 \u2603 !\n',
+                 '1.5 2 3\n', 'one two three\n']
+
+
+def benign_child_stderr(rng, plan, tids, p=0.5):
+    """Copy of plan in which tests chatter on the real stderr (complete
+    lines that do not parse as a report header) and some also leave an
+    atexit hook that writes after the report of a layer subprocess."""
+    import copy
+    q = copy.deepcopy(plan or {})
+    n = 0
+    for tid in tids:
+        if rng.random() >= p:
+            continue
+        acts = [{'ph': rng.choice(['setUp', 'body', 'tearDown']),
+                 'do': 'write', 'stream': rng.choice(['fd2', '__stderr__']),
+                 'text': rng.choice(BENIGN_STDERR)}]
+        if rng.random() < 0.3:
+            acts.append({'ph': 'body', 'do': 'atexit_write',
+                         'text': rng.choice(['late line\n', 'a b c\n',
+                                             'bye\nbye\n'])})
+        t = q.setdefault('tests', {}).setdefault(tid, {})
+        t['actions'] = list(t.get('actions') or []) + acts
+        n += 1
+    return q, n
